@@ -1,4 +1,5 @@
 """C09: iterating while the store changes never skips, repeats or resurrects a record."""
+import time
 from vlib import common as C
 from vlib.diff import Case, differential
 from checks import kvgen as G, c01
@@ -80,10 +81,13 @@ def make_case(r, nops):
 def shrink(h, ops, cls=None):
     head = [l for l in ops if l.split()[0] in ("open", "db")]
     body = [l for l in ops if l.split()[0] not in ("open", "db", "close")]
+    deadline = time.time() + 90
 
     def fails(sub):
         o2 = head + sub + ["close"]
-        rc, o, e = C.run_lines([h, C.scratch() + "/kv9-shrink.db"], o2, timeout=60)
+        if time.time() > deadline:
+            return False
+        rc, o, e = C.run_lines_stall([h, C.scratch() + "/kv9-shrink.db"], o2, timeout=30, stall=5)
         if rc != 0 or len(o) < len(o2):
             return False
         m = judge(o2, o)
